@@ -1154,6 +1154,10 @@ def generate(repo):
     L.append("(* guarded globals: " + "; ".join("%d=%s" % (i, n) for i, n in enumerate(tr.globals)) + " *)")
     L.append("Definition guard_tab : list (option nat) := [%s]." % "; ".join(guard_tab))
     L.append("Definition guard (g : nat) : option nat := nth g guard_tab None.")
+    # the receiver-filled queues: guarded on EVERY entry (also the ones documented as not thread-safe), because the
+    # library's own receiver thread uses them whatever the application does
+    L.append("Definition running_entries : list nat := [%s]." % "; ".join(str(fid[n]) for n in pub if n not in ("bidib_start_pointer", "bidib_start_serial")))
+    L.append("Definition queue_globals : list nat := [%s]." % "; ".join(str(i) for i, n in enumerate(tr.globals) if n.startswith("uplink_") or n.startswith("wait:uplink_")))
     for n in names:
         L.append("Definition fn_%d : stmt := (* %s *)\n  %s." % (fid[n], n, coq_stmt(tr, fid, tr.fns[n].body)))
     L.append("Definition body_tab : list (option stmt) := [%s]." % "; ".join("Some fn_%d" % fid[n] for n in names))
@@ -1233,6 +1237,8 @@ def generate(repo):
             "functions": names, "public": pub, "thread_mains": mains, "threadsafe": ts, "rank": {tr.locks[i]: rank[i] for i in range(nl)},
             "nesting_pairs": [[tr.locks[h], tr.locks[l], ch] for (h, l), ch in sorted(an.pairs.items())],
             "cycles": cyc, "errors": an.errors[:200], "errors_per_entry": {k: v[:5] for k, v in per_entry.items() if v},
+            "queue_errors": [dict(e, entry=k) for k, v in per_entry.items() if k not in ("bidib_start_pointer", "bidib_start_serial")
+                             for e in v if str(e.get("global", "")).startswith(("uplink_", "wait:uplink_"))],
             "contexts": len(an.memo), "max_call_depth": an.maxdepth,
             "rwlocks": sorted(tr.rwlocks), "access_sites": sites, "access_checks": stats, "access_checks_all_entries": stats_all, "rw_violations": rw[:100],
             "param_writers": {k: sorted(v) for k, v in sorted(tr.pwrites.items()) if v},
